@@ -96,19 +96,22 @@ def run(ctx):
     wsum["schedules"] += wsum2["schedules"]
     # single calls as scripts: every interleaving of the caller's and the handler's operations, executed on the rpc layer
     from vlib import svcfam
-    sr, sfiles = svcfam.scripts(ctx, deep=not ctx.quick())
+    sr, sfiles = svcfam.scripts(ctx, deep=not ctx.quick(), drop=True)
     states += sr.distinct
     trans += sr.generated
     ssum = svcfam.run_rpc(ctx, sfiles, 1500 if ctx.quick() else 0)
     ctx.coverage = {
         "call_scripts": {"model": "SvcCall.tla (refines Rpc.tla, checked by TLC)", "executed": ssum["scripts"], "generated": ssum["of"],
+                         "with_lost_connection": ssum.get("lost", 0),
                          "steps": ssum["steps"], "by_kind": ssum["by_kind"],
                          "rule": "one call per script: kinds unary / oneway / client stream / server stream / bidirectional x handler outcome OK / "
                                  "application code+message / panic x every order of the two sides' operations (<= 1 message per direction "
                                  "exhaustively, <= 3 by simulation in the thorough tier); after every step the operation's result must be the "
                                  "script's: request bytes at the handler, each streamed message in order, End only after everything, the "
                                  "caller's outcome = its handler's (result bytes, code and message, non-OK after a panic), messages not "
-                                 "received before Response are skipped"},
+                                 "received before Response are skipped; scripts in which a proxy cuts the connection at any point of the call: "
+                                 "the caller gets a non-OK status (or exactly its handler's outcome if that was returned before the loss), "
+                                 "nothing hangs, and the client completes a call again right afterwards"},
         "wake_schedules_replayed": wsum["schedules"],
         "states": states, "transitions": trans, "traces_validated_against_impl": calls, "samples": samples, "events": events,
         "invariants": ["HandlerAtMostOnce", "OkOnlyIfServerSentOk", "StreamPrefix", "AllHandled (at every run end)"],
@@ -121,7 +124,7 @@ def run(ctx):
                        "of each run every issued call was handled exactly once.",
     }
     ctx.assumptions = ["one call per request; calls within a run are independent channels",
-                       "transport faults during calls are not injected by this check (C09 covers the channel layer below)"]
+                       "transport faults during the concurrent trace runs are not injected (the scripted calls lose their connection at every point)"]
 
 
 def replay(ctx, path):
